@@ -99,7 +99,7 @@ PROPS = {
     "C05": {
         "title": "Every privileged effect requires the governing privilege",
         "level": "exploration",
-        "rule": "independent table of 110 cells (path items holding separators and dot-dot after the name of an upload folder or drop box: the guard must judge the folder the request resolves to; a file list request that names a drop box in a file-name field: its content is revealed only with view-drop-boxes; an account record without a name logging in with a name of its choice; files and folders whose side file claims the other kind; names starting with ../ in uploads into an upload folder and in renames: the effect must happen in the folder the path field names; resumed uploads inside and outside upload folders; batched update-user requests mixing modify, rename, create and delete entries; news targets at depth 1 to 4; delete and move of a dangling alias, governed by either the file or the folder privilege) (request type x target kind -> governing privilege numbers, from the protocol's privilege list) "
+        "rule": "independent table of 111 cells (a folder upload into a missing path named like an upload folder, carried out on the transfer connection; path items holding separators and dot-dot after the name of an upload folder or drop box: the guard must judge the folder the request resolves to; a file list request that names a drop box in a file-name field: its content is revealed only with view-drop-boxes; an account record without a name logging in with a name of its choice; files and folders whose side file claims the other kind; names starting with ../ in uploads into an upload folder and in renames: the effect must happen in the folder the path field names; resumed uploads inside and outside upload folders; batched update-user requests mixing modify, rename, create and delete entries; news targets at depth 1 to 4; delete and move of a dangling alias, governed by either the file or the folder privilege) (request type x target kind -> governing privilege numbers, from the protocol's privilege list) "
                 "covering all 43 registered transaction types; TestC05Matrix enumerates every cell x {each of the 40 single-privilege "
                 "bitmaps, all, none, all-but-one-governing}; TestC05 draws cell x requester bitmap (random 64 bits with governing bits "
                 "forced, all-but-governing, only-governing, missing-one) x how the requester came by them (account file at login, or an "
